@@ -108,24 +108,24 @@ def classOp (rt : Bool) : Op := do
       if rt then showVal (featToDict o) else showTokens o.guid (featDigestArgs o.args)))
   | "var" => pure (showD id ((varFromDict md5 d).map fun o =>
       if rt then showVal (varToDict o) else showTokens o.guid (varDigestArgs o.args)))
-  | "gene" => pure (showD id ((geneFromDict md5 0 d).map fun o =>
+  | "gene" => pure (showD id ((geneFromDict md5 Frame.none d).map fun o =>
       if rt then showVal (geneToDict o) else
-        match geneObjDigestArgs o.transcripts o.geneId o.geneSymbol o.geneType o.locusTag o.sequenceName o.quals 0 with
+        match geneObjDigestArgs o.transcripts o.geneId o.geneSymbol o.geneType o.locusTag o.sequenceName o.quals Frame.none with
         | some a => showTokens o.guid a
         | none => "?"))
-  | "fc" => pure (showD id ((fcFromDict md5 0 d).map fun o =>
+  | "fc" => pure (showD id ((fcFromDict md5 Frame.none d).map fun o =>
       if rt then showVal (fcToDict o) else
-        match fcObjDigestArgs o.features o.name o.id o.ctype o.locusTag o.sequenceName o.quals 0 with
+        match fcObjDigestArgs o.features o.name o.id o.ctype o.locusTag o.sequenceName o.quals Frame.none with
         | some a => showTokens o.guid a
         | none => "?"))
-  | "vc" => pure (showD id ((vcFromDict md5 0 d).map fun o =>
+  | "vc" => pure (showD id ((vcFromDict md5 Frame.none d).map fun o =>
       if rt then showVal (vcToDict o) else
-        match vcObjDigestArgs o.variants o.name o.id o.sequenceName o.quals 0 with
+        match vcObjDigestArgs o.variants o.name o.id o.sequenceName o.quals Frame.none with
         | some a => showTokens o.guid a
         | none => "?"))
   | "ac" => pure (showD id ((acFromDict md5 d .none).bind fun o =>
       if rt then (acToDict o true).map showVal else
-        pure (showTokens o.guid (acDigestArgs o.bounds o.parent.chunkStart o.name o.sequenceName o.quals
+        pure (showTokens o.guid (acDigestArgs o.bounds o.parent.frame o.name o.sequenceName o.quals
           o.completelyWithin (o.genes.map (·.guid) ++ o.fcs.map (·.guid) ++ o.vcs.map (·.guid))))))
   | c => throw s!"class? {c}"
 
